@@ -651,7 +651,9 @@ def judgeLine2 (j : JSt) (lineNo : Nat) (opLine obsLine : String) : JSt :=
       match j.getMon a, j.getMon b with
       | some ma, some mb =>
         -- a merge from a graph that is no longer judged leaves the left graph in a state the reference does not know
-        if ¬ ma.judged ∨ ¬ mb.judged then j.setMon a { ma with judged := false, watch := false }
+        -- (a right graph that was rejected before but whose reference state is still being followed — `watch` — is
+        -- still a known right graph: what is present in it is a matter of the calls made, not of what `keys()` said)
+        if ¬ ma.judged ∨ ¬ (mb.judged ∨ mb.watch) then j.setMon a { ma with judged := false, watch := false }
         else
           match refMerge ma.n ma.cap mb.cap ma.r mb.r l r with
           | none => j.setMon a { ma with judged := false }
